@@ -99,9 +99,9 @@ func main() {
 			fmt.Fprintln(os.Stderr, err)
 			os.Exit(2)
 		}
-		par(200, func(g, i int) {
-			a := fmt.Sprintf("11.%d.0.%d:6000", g, i%5+1)
-			b := fmt.Sprintf("12.%d.0.%d:6000", g, i%3+1)
+		par(1500, func(g, i int) {
+			a := fmt.Sprintf("11.%d.0.%d:6000", g%2, i%5+1)
+			b := fmt.Sprintf("12.%d.0.%d:6000", g%2, i%3+1)
 			switch i % 12 {
 			case 0:
 				px.AddPeer(a) //nolint:errcheck
